@@ -1454,17 +1454,63 @@ func (s *vSim) healAndCheck(rounds int) {
 		n.lastRto = n.peer.raft.randomizedElectionTimeout
 		s.emit(jEvent{A: "SetRto"}, n)
 	}
+	// a snapshot that was sent during the fault prefix and lost: the transport reports the failed
+	// transfer to the sender sooner or later (HandleSnapshotStatus), it never stays silent
+	for _, n := range s.upNodes() {
+		if n.peer.raft.state != leader {
+			continue
+		}
+		waiting := []uint64{}
+		for id, rm := range n.peer.raft.remotes {
+			if rm.state == remoteSnapshot {
+				waiting = append(waiting, id)
+			}
+		}
+		for id, rm := range n.peer.raft.nonVotings {
+			if rm.state == remoteSnapshot {
+				waiting = append(waiting, id)
+			}
+		}
+		for id, rm := range n.peer.raft.witnesses {
+			if rm.state == remoteSnapshot {
+				waiting = append(waiting, id)
+			}
+		}
+		sort.Slice(waiting, func(i, j int) bool { return waiting[i] < waiting[j] })
+		for _, id := range waiting {
+			inflight := false
+			for _, m := range s.sortedNet() {
+				if m.Type == pb.InstallSnapshot && m.From == n.id && m.To == id {
+					inflight = true
+				}
+			}
+			if !inflight {
+				s.snapStatus(n, id, true)
+			}
+		}
+	}
 	pendingStatus := [][2]uint64{}
 	round := func() {
 		// a replica whose removal has been applied somewhere is stopped by the operator (a removed
 		// replica that keeps running and never learns about its removal disrupts elections when
 		// neither PreVote nor CheckQuorum is on - known Raft behaviour, not part of the premise)
+		// The operator stops it only when every other running replica has applied the removal:
+		// a leader that removed itself must stay around until the remaining members have learned
+		// that the change is committed (they still count it for their quorum until they apply it).
 		for _, n := range s.upNodes() {
+			others, all := 0, true
 			for _, o := range s.upNodes() {
-				if o.mem.rm[n.id] && n.up {
-					s.crash(n)
-					n.started = false
+				if o.id == n.id {
+					continue
 				}
+				others++
+				if !o.mem.rm[n.id] {
+					all = false
+				}
+			}
+			if others > 0 && all && n.up {
+				s.crash(n)
+				n.started = false
 			}
 		}
 		// a replica admitted by a change that only got applied now is started as well
